@@ -537,7 +537,9 @@ class Concretizer:
 
     def _content(self, doc: str, valid: bool, pad: int) -> str:
         if valid:
-            return json.dumps({"marker": doc, "rules": [], "pad": "x" * pad})
+            # one rule whose id is the document's marker: what the engine ENFORCES can be probed (see `snap`)
+            return json.dumps({"marker": doc, "rules": [{"id": doc, "effect": "permit", "actions": ["read"], "resource": {"type": "doc"}}],
+                               "pad": "x" * pad})
         return '{"marker": "%s", "rules": [' % doc + "x" * pad
 
     def src(self, e: dict) -> dict:
@@ -783,8 +785,18 @@ def execute(case: dict, tmpdir: str) -> tuple[list[dict], list[dict], list[dict]
         env.reloader = rl
         guard.reloader = rl
 
+        def enforced() -> str:
+            """the id of the rule that decides a probe request = the marker of the document the engine decides by"""
+            try:
+                d = guard.evaluate_sync(real.Subject("probe"), real.Action("read"), real.Resource("doc", "1"), None)
+                return "init" if d.rule_id is None else str(d.rule_id)
+            except Exception as e:  # noqa: BLE001
+                return "raised:" + type(e).__name__
+
         def snap(results: list) -> dict:
-            return {"results": results, "policy": marker(guard.policy), "last_etag": rl.last_etag,
+            # probe after every check that applied something (nothing else replaces the engine's policy)
+            probe = any(r is True for r in results)
+            return {"results": results, "policy": marker(guard.policy), "enforced": enforced() if probe else None, "last_etag": rl.last_etag,
                     "suppressed_until": to_us(rl.suppressed_until), "error_set": rl.last_error is not None,
                     "etag_calls": env.etag_calls, "loads": env.load_calls, "cache_epoch": cache.clears,
                     "loaded": list(env.loaded_now)}
@@ -1113,6 +1125,14 @@ def evaluate_batch(run: lib.Run, batch: list[tuple[dict, list, list, list]], tal
         d_remote = first_diff(impl, ans["model_remote"]) if is_http else None
         spec = ans["spec"]
         bad = spec_fails(spec)
+        # the engine must DECIDE by the document it holds (a reload that swaps `Guard.policy` but keeps deciding by an older document
+        # applies nothing): the deciding rule of a probe request carries the marker of the document in force
+        for rec in impl:
+            held = rec.get("policy", "")
+            if (held == "init" or (held.startswith("d") and held[1:].isdigit())) and rec.get("enforced") not in (None, held):
+                spec = dict(spec, enforced=[{"engine_holds": held, "engine_decides_by": rec.get("enforced")}])
+                bad = bad + ["enforced"]
+                break
         timing_only = False
         if k in adopted and not bad:
             a2 = adopted[k]
